@@ -459,16 +459,34 @@ impl Ctx {
             for l in &violation_lines {
                 println!("{l}");
             }
-            std::process::exit(1);
+            leave(1);
         }
         if !inconclusive.is_empty() {
             for r in &inconclusive {
                 println!("INCONCLUSIVE property={} reason={}", self.id, r);
             }
-            std::process::exit(2);
+            leave(2);
         }
-        std::process::exit(0);
+        leave(0);
     }
+}
+
+/// End the process with the verdict's exit code. Workloads leave runtime worker threads, cleanup tasks and watchdog
+/// threads behind; `exit()` would run the C library's exit handlers and static destructors while those threads are still
+/// running, which once ended a finished run with SIGSEGV on a loaded machine (the verdict had been printed, the exit
+/// code was lost). `_exit` after flushing skips them. Under a sanitizer or coverage build the exit handlers ARE the
+/// point (leak check, counter dump), so the ordinary exit is kept there.
+fn leave(code: i32) -> ! {
+    use std::io::Write;
+    let _ = std::io::stdout().flush();
+    let _ = std::io::stderr().flush();
+    let soft = ["LLVM_PROFILE_FILE", "ASAN_OPTIONS", "TSAN_OPTIONS", "LSAN_OPTIONS", "VH_SOFT_EXIT"].iter().any(|k| std::env::var_os(k).is_some());
+    if soft {
+        std::process::exit(code);
+    }
+    // SAFETY: `_exit` has no preconditions; everything this process has to deliver (evidence file, replay files, stdout)
+    // has been written and flushed above.
+    unsafe { libc::_exit(code) }
 }
 
 fn load_findings(id: &str) -> Vec<Finding> {
